@@ -6,7 +6,34 @@ Q, T = "quick", "thorough"
 
 PENDING = {}
 
+def chain(pid, checks_q, checks_t, steps=100, shards_t=16, floor=0.3, **kw):
+    d = {
+        "level": "exploration",
+        "floor": floor,
+        "units": [{"pkg": "app", "run": "^TestVerif_%s$" % pid, "checks": {Q: checks_q, T: checks_t}, "shards": {Q: 4, T: shards_t},
+                   "steps": steps, "timeout": {Q: 600, T: 3000}, "shrinktime": "60s"}],
+        "assumptions": [
+            "the application is driven through InitChain/BeginBlock/DeliverTx/EndBlock/Commit in one process on a MemDB; no Tendermint consensus, no CheckTx/mempool",
+            "3 tenants, 3 providers, 2 auditors, 1 outsider; fees are zero; block gaps are bounded by 120 blocks per step",
+        ],
+    }
+    d.update(kw)
+    return d
+
+
 PROPS = {
+    "C01": chain("C01", 60, 1500, floor=0.5,
+        technique="property-based testing: rapid state machine over the real app (signed txs), conservation invariant + per-transaction balance-delta law",
+        level_text="Generated transaction histories (all marketplace message types, several tenants/providers, zero to exhaustion-sized block gaps) are executed on the real application; after every transaction and block advance the escrow module balance is compared with a full scan of escrow records and every actor's bank delta with its own deposits/refunds/payouts.",
+        level_note="Trusted: cosmos-sdk bank/auth modules, rapid; explores sampled histories only."),
+    "C03": chain("C03", 60, 1500, floor=0.3,
+        technique="property-based testing: rapid state machine over the real app, escrow record invariants + chain's own ValidateGenesis as oracle + close-takes-effect postconditions",
+        level_text="Histories biased towards closes with zero elapsed blocks / zero accrued balance; after every step a full escrow scan checks open/closed/overdrawn agreement, zero balances of closed records, immutability of closed records, escrow.ValidateGenesis(ExportGenesis) and the postcondition of every successful close message.",
+        level_note="Trusted: as C01; lazy settlement means only recorded states are related to each other."),
+    "C05": chain("C05", 60, 1500, floor=0.3,
+        technique="property-based testing: rapid state machine over the real app, join of market/deployment stores with escrow store after every transaction",
+        level_text="After every transaction of generated histories the market/deployment records are joined with escrow records through the id mapping (lease<->payment, bid<->deposit account, deployment<->account) in both directions, plus per-record refund checks when a bid or deployment ends.",
+        level_note="Trusted: as C01."),
     "C15": {
         "level": "exploration",
         "technique": "property-based testing: rapid state machine vs per-subscriber FIFO model + generated concurrent runs with schedule-independent order oracle",
